@@ -251,7 +251,10 @@ def analyse(case):
                                     xref=[math.fsum(sh.A[i][j] * xls[j] for j in range(sh.est)) + sh.b[i] for i in range(sh.est)])
                         normA = max(sum(abs(v) for v in r) for r in sh.A)
                         normA1 = max(sum(abs(sh.A[i][j]) for i in range(sh.est)) for j in range(sh.est))
-                        info['scale_x'] = max(normA * max(abs(v) for v in xls) + max(abs(v) for v in sh.b), 1e-300)
+                        # errors of the computed J^T Y are relative to |J|^T |Y|, i.e. to |Y| / sigma_max in units of x: a right-hand
+                        # side with a large component outside range(J) (noise) makes x_ls small without making its error small
+                        ynorm = math.sqrt(math.fsum(v * v for v in Yv))
+                        info['scale_x'] = max(normA * max(max(abs(v) for v in xls), ynorm / sv[0]) + max(abs(v) for v in sh.b), 1e-300)
                         info['inv_norm'] = 1.0 / (sv[-1] * sv[-1]) if sv[-1] > 0 else math.inf
                         last_inv = ('inv', info)
                     else:
